@@ -6,10 +6,8 @@ use crate::gens::soup::has_markup;
 use crate::obs::*;
 use crate::tape::{Tape, fnv};
 use crate::{ensure, fail};
-use lol_html::{HtmlRewriter, rewrite_str};
+use lol_html::HtmlRewriter;
 use serde_json::{Value, json};
-use std::cell::RefCell;
-use std::rc::Rc;
 
 pub struct C02;
 
@@ -77,14 +75,6 @@ pub fn compare(base: &RunOut, base_norm: &Result<Vec<Ev>, String>, r: &RunOut, w
     Ok(())
 }
 
-fn rewrite_str_run(s: &str, cfg: &Cfg) -> Result<Result<String, ErrKind>, String> {
-    let sh: Sh = Rc::new(RefCell::new(Shared::default()));
-    crate::engine::guard(|| {
-        let settings = build_settings(cfg, &sh).map_err(ErrKind::Handler)?;
-        rewrite_str(s, settings).map_err(|e| ErrKind::from(&e))
-    })
-}
-
 pub fn check_case(c: &Case, st: &mut Stats) -> PResult {
     let base = run(&[&c.input], &c.cfg);
     st.eval();
@@ -125,20 +115,33 @@ pub fn check_case(c: &Case, st: &mut Stats) -> PResult {
         interesting |= cuts.iter().any(|p| cut_is_interesting(&c.input, *p));
         st.label_if(cuts.windows(2).any(|w| w[0] == w[1]) || cuts.first() == Some(&0), "empty_write");
     }
-    // rewrite_str == single write (+end) for UTF-8 strings
+    // the one-shot entry point == a single write (+ end) for UTF-8 strings: with the full
+    // `Settings`, and - when the configuration uses no option `RewriteStrSettings` lacks - with a
+    // `RewriteStrSettings` carrying the same handlers, `strict` and `enable_esi_tags`
     if c.cfg.encoding == encoding_rs::UTF_8 && !c.cfg.adjust_charset {
         if let Ok(s) = std::str::from_utf8(&c.input) {
-            st.eval();
-            match rewrite_str_run(s, &c.cfg) {
-                Err(p) => fail!("C02: rewrite_str panicked: {p}"),
-                Ok(Ok(out)) => {
-                    ensure!(base.result.is_ok(), "C02: rewrite_str Ok but single write gave {}", base.kind());
-                    if std::str::from_utf8(&base.out).is_ok() {
-                        ensure!(out.as_bytes() == &base.out[..], "C02: rewrite_str output differs from single write: {:?} vs {:?}", show(out.as_bytes()), show(&base.out));
-                    }
-                    st.label("rewrite_str");
+            let plain_options = !c.cfg.graceful_handler && !c.cfg.graceful_mem && c.cfg.max_mem == usize::MAX;
+            for via in [false, true] {
+                if via && !plain_options {
+                    continue;
                 }
-                Ok(Err(e)) => ensure!(base.kind() == e.short(), "C02: rewrite_str gave {} but single write gave {}", e.short(), base.kind()),
+                let what = if via { "rewrite_str(RewriteStrSettings)" } else { "rewrite_str(Settings)" };
+                let (res, out, events) = run_str_via(s, &c.cfg, via);
+                st.eval();
+                match res {
+                    Err(ErrKind::Panic(p)) => fail!("C02: {what} panicked: {p}"),
+                    Ok(()) => {
+                        ensure!(base.result.is_ok(), "C02: {what} Ok but single write gave {}", base.kind());
+                        if std::str::from_utf8(&base.out).is_ok() {
+                            ensure!(out == base.out, "C02: {what} output differs from single write: {:?} vs {:?}", show(&out), show(&base.out));
+                        }
+                        if let (Ok(a), Ok(b)) = (norm(&events), &base_norm) {
+                            ensure!(a == *b, "C02: handler-visible events of {what} differ from a single write");
+                        }
+                        st.label(if via { "rewrite_str_via_str_settings" } else { "rewrite_str" });
+                    }
+                    Err(e) => ensure!(base.kind() == e.short(), "C02: {what} gave {} but single write gave {}", e.short(), base.kind()),
+                }
             }
         }
     }
